@@ -554,11 +554,19 @@ def manage_session(sid, rec, rng):
         elif op == "fullB":
             u = {"kind": "full", "rules": V(2, ("r2", "r3", "r4")), "names": []}
         elif op == "incrNew":
-            u = {"kind": "incr", "rules": V(ver, ("r3",)), "names": []}
+            # the added rule runs first, in the middle or last
+            u = {"kind": "incr", "rules": V(ver, ("r3",), {"r3": rng.choice([0, 1, (ver + 3) % 10])}), "names": []}
         elif op == "incrRepl":
             # replacement that keeps the salience of the installed rule (new body and description only)
             keep = {n: code_of(cur[n]) for n in ("r1", "r2") if n in cur}
             u = {"kind": "incr", "rules": V(ver, ("r1", "r2"), keep), "names": []}
+        elif op == "incrReplNew":
+            # the rule that an earlier incremental text ADDED is re-defined (same or changed salience)
+            if "r3" in cur:
+                keep = {"r3": rng.choice([code_of(cur["r3"]), (code_of(cur["r3"]) + 4) % 10])}
+                u = {"kind": "incr", "rules": V(ver, ("r3",), keep), "names": []}
+            else:
+                u = {"kind": "incr", "rules": V(ver, ("r3",)), "names": []}
         elif op == "incrSal":
             chg = {n: (code_of(cur[n]) + 3) % 10 for n in ("r2", "r4") if n in cur}
             u = {"kind": "incr", "rules": V(ver, ("r2", "r4"), chg), "names": []}
@@ -611,7 +619,7 @@ def check_c16(run):
         recs = rng.sample(recs, 3615)
     sessions = [manage_session(i + 1, r, rng) for i, r in enumerate(recs)]
     # longer random sequences on bigger pools
-    ops = ["fullA", "fullB", "incrNew", "incrRepl", "incrSal", "removeHas", "removeAbsent", "removeNone", "removeTwo", "clear",
+    ops = ["fullA", "fullB", "incrNew", "incrRepl", "incrSal", "incrReplNew", "incrReplNew", "removeHas", "removeAbsent", "removeNone", "removeTwo", "clear",
            "model1", "model1", "model2", "model3", "model4", "model9", "badfull", "badincr"]
     for i in range(60 if quick else 1200):
         mn = rng.randint(1, 3)
